@@ -14,7 +14,8 @@ LEVEL = 'exploration'
 TECHNIQUE = ('exhaustive enumeration of the binary range x places and of '
              'short digit strings, boundary + Hypothesis-sampled octal/hex '
              'values and malformed strings, against a two\'s-complement '
-             'reference model and round-trip/composition laws')
+             'reference model and round-trip/composition laws'
+             '; range boundaries of every output base written in every input base; digit strings in cells after to_file/from_file; order-independence probe')
 LEVEL_TEXT = ('Exploration: the binary domain (-512..511 x places) and all '
               'binary strings up to 11 digits are enumerated completely; '
               'octal/hex use all boundaries plus sampled values; malformed '
